@@ -108,6 +108,24 @@ pub fn replay_item(out: &mut Out, bv: &Value, rng: &mut Rng, n: usize) {
         _ => {
             let spell = name;
             if cls == "f1" {
+                // eval_complex: next to the branch points +-1 and +-i (a series or a logarithm form that is good on one side of a
+                // threshold loses its digits there), off the cuts
+                if e == "cpx" {
+                    for (br, bi) in [(1.0f64, 0.0f64), (-1.0, 0.0), (0.0, 1.0), (0.0, -1.0)] {
+                        for d in [3e-5f64, 1e-5, 3e-6, 1e-6, 1e-7, 1e-9] {
+                            for tang in [3.0f64, 0.0] {
+                                // radially inward by d, tangentially by 3d (tang = 0: on the axis, inside the disc)
+                                let z = Complex::new(br * (1.0 - d) - bi * tang * d, bi * (1.0 - d) + br * tang * d);
+                                let ph = Val::C(z);
+                                let mut asg = Asg::default();
+                                asg.fns.insert(1, func.to_string());
+                                let t = T::Call("f1".into(), 1, vec![T::Ans(3)]);
+                                let exp = expected(e, &t, &asg, &ph);
+                                checked_call(out, e, &format!("{}(@)", spell), &ph, Some(&exp), json!({"v": "accept"}), true, &ctx);
+                            }
+                        }
+                    }
+                }
                 // the ends of the Decimal format (no double reaches them): largest, smallest, the neighbours of 1 and of 0
                 if e == "dec" {
                     for ph in dec_extremes() {
